@@ -213,6 +213,32 @@ def bits_str(bits):
     return 'b' + ''.join('1' if b else '0' for b in bits)
 
 
+def _interleaved(mk_iter, n, conv):
+    """two iterations over the same value alive at the same time: the second one starts after the first
+    has advanced past the middle, then they alternate.  Returns (first, second, 0): both are complete"""
+    it1 = mk_iter()
+    a, b = [], []
+    for _ in range(n // 2 + 1 if n else 0):
+        try:
+            a.append(conv(next(it1)))
+        except StopIteration:
+            break
+    it2 = mk_iter()
+    done1 = done2 = False
+    while not (done1 and done2):
+        if not done2:
+            try:
+                b.append(conv(next(it2)))
+            except StopIteration:
+                done2 = True
+        if not done1:
+            try:
+                a.append(conv(next(it1)))
+            except StopIteration:
+                done1 = True
+    return a, b, 0
+
+
 def to_val(t, view, route='index'):
     """read the content of a view back as value text, through the read route given"""
     k = kind(t)
@@ -221,6 +247,9 @@ def to_val(t, view, route='index'):
     if k in ('bv', 'bl'):
         if route == 'index':
             return bits_str([bool(view[i]) for i in range(len(view))])
+        if route == 'zip':
+            a, b, off = _interleaved(lambda: iter(view), len(view), bool)
+            return bits_str(a) if a[off:] == b else 'INTERLEAVED-ITERATIONS-DIFFER'
         return bits_str([bool(b) for b in view])
     if k in ('Bv', 'Bl'):
         return 'x' + bytes(view).hex()
@@ -236,11 +265,14 @@ def to_val(t, view, route='index'):
             for x in view.readonly_iter():
                 out.append(to_val(t[1], x, route))
             return '(s' + ''.join(' ' + x for x in out) + ')'
+        if route == 'zip':
+            a, b, off = _interleaved(lambda: view.readonly_iter(), len(view), lambda x: to_val(t[1], x, route))
+            return '(s' + ''.join(' ' + x for x in a) + ')' if a[off:] == b else 'INTERLEAVED-ITERATIONS-DIFFER'
         if route == 'slice':
             items = view[0:len(view)]
             return '(s' + ''.join(' ' + to_val(t[1], x, route) for x in items) + ')'
     if k == 'cont':
-        if route in ('index', 'slice'):
+        if route in ('index', 'slice', 'zip'):
             items = [getattr(view, 'f%d' % i) for i in range(len(t) - 1)]
         else:
             items = list(view)
@@ -376,7 +408,7 @@ def run_val(t, v):
         return '%s/%d/%d' % (s.getvalue()[3:].hex(), n, s.tell() - 3)
     put('p.stream', E(stream_write))
     put('p.vbl', E(lambda: str(x.value_byte_length())))
-    for route in ('index', 'iter', 'roiter', 'slice'):
+    for route in ('index', 'iter', 'roiter', 'slice', 'zip'):
         put('p.read.' + route, E(lambda: to_val(t, x, route)))
     if not isinstance(t, str) and kind(t) in ('vec', 'list', 'bv', 'bl'):
         n_el = len(v) - 1
@@ -599,7 +631,20 @@ def run_hist(t, v, ops):
         put('%d.pagain' % k, str(again))
         put('%d.pshare' % k, E(lambda: share_info(old_backing, x.get_backing())))
         put('%d.pshape' % k, E(lambda: shape_digest(x.get_backing())[:8].hex()))
+        put('%d.pfresh' % k, E(lambda: fresh_agreement(t, x)))
     return ';'.join(out)
+
+
+def fresh_agreement(t, x):
+    """the mutated view against a fresh value built from the content it shows by indexing: ==, roots,
+    hash(), every other read route, object export (one flag each)"""
+    content = to_val(t, x)
+    y = mk_val(t, parse(content))
+    flags = [x == y, not (x != y), x.hash_tree_root() == y.hash_tree_root(), hash(x) == hash(y),
+             x.to_obj() == y.to_obj(), x.encode_bytes() == y.encode_bytes()]
+    for route in ('iter', 'roiter', 'slice', 'zip'):
+        flags.append(to_val(t, x, route) == content)
+    return ''.join('1' if f else '0' for f in flags)
 
 
 def shape_digest(n):
